@@ -4,7 +4,9 @@ For each (protocol version, state/direction table, packet class) the check
 builds instances from per-field boundary alphabets, writes each with the real
 ``Packet.write`` into a ``PacketBuffer``, parses the frame with the reference
 reader, and reads the payload back with a fresh instance of the same class.
-The same is done for generated user-defined packets ("programs").
+The same is done for generated user-defined packets ("programs"), and for
+every way of grouping the fields of a program into the entries of its
+definition ("shapes").
 
 The oracle is the round trip itself (no byte-exactness: that is C02/C07).
 """
@@ -43,7 +45,22 @@ RULE = (
     'x id from class attribute / get_id / instance attribute; length <= 2 '
     'with one-field-at-a-time variation, length 3 with default/first/last '
     'instances; programs containing Position under 4 versions around the '
-    '443 switch, the others under the newest version.  Histories (same '
+    '443 switch, the others under the newest version.  Shapes of a '
+    'definition (an entry of a definition is a dict that may map one name, '
+    'several names or none): every field list of length <= 2 over the 25 '
+    'types and of length 3 over 6 of them (thorough: all 25) is declared '
+    'under EVERY way of cutting it into consecutive entries ([a][b][c], '
+    '[a,b][c], [a][b,c], [a,b,c]), each without and with an empty entry {} '
+    'before, between and after the groups (length 0: [] and [{}]), as class '
+    'attribute / classmethod / staticmethod get_definition (versions as for '
+    'the programs); instances: all-default, all-first, all-last and '
+    '"stagger" (field k takes member k+1 of its alphabet, so that fields of '
+    'one type differ).  Each must be written as exactly the frame the '
+    'one-name-per-entry declaration writes, that frame must be length + id '
+    '(reference VarInts) + for each field in turn the bytes a packet '
+    'consisting of that field alone carries (no byte-exactness of the TYPES: '
+    'that is C02), and it must round-trip like every other packet (class, '
+    'values, exact consumption, id, repr).  Histories (same '
     'thread, same context object): for every version of the tier and every '
     'registered class A, with poison = a value that cannot be encoded (out '
     'of range for the integer type, wrong Python type, malformed UUID, bad '
@@ -96,6 +113,13 @@ ASSUMPTIONS = [
     'when (b/63.5)*63.5 == b in IEEE arithmetic and within one quantum '
     '(byte) / 1e-6 relative (float) otherwise',
     '0.0 and -0.0 compare equal',
+    'user-defined definitions: the names of one entry are on the wire in the '
+    'order in which the dict lists them (dicts keep insertion order; '
+    'packet.py documents the definition as "a list of fields, each of which '
+    'is a dict mapping attribute names to data types"), and an empty entry '
+    'stands for nothing on the wire (the library\'s own definitions use {} '
+    'for a field that is absent under a version); the frame of a user-defined '
+    'packet is therefore a function of the flattened field list alone',
     'a packet class that overrides read/write_fields, has no definition and '
     'is not one of the six known hand-written codecs, or a field Type this '
     'module has no alphabet for, is a TOOL-ERROR (the check must be '
@@ -1125,11 +1149,13 @@ def build_packet(cls, context, inst):
 
 
 def roundtrip(ctx, env, cls, ident, inst, case, want_id=None,
-              instance_id=None, sink=None, expect=None, after=''):
+              instance_id=None, sink=None, expect=None, after='',
+              expect_kind=None):
     """Execute one case; report at most one violation.  -> outcome label.
     sink: write into this (shared) buffer instead of a fresh one; expect: the
     frame this packet produces in a clean state; after: what was written
-    before (history cases)."""
+    before (history cases); expect_kind: (kind, text with two %s: got and
+    expected frame) when `expect` is something else."""
     context = env.context
     ctx.count()
 
@@ -1164,6 +1190,9 @@ def roundtrip(ctx, env, cls, ident, inst, case, want_id=None,
         return fail('write-raises', 'Packet.write raised %s: %s%s'
                     % (type(e).__name__, e, after))
     data = buf.get_writable()[start:]
+    if expect is not None and data != expect and expect_kind is not None:
+        return fail(expect_kind[0], expect_kind[1]
+                    % (data.hex()[:200], expect.hex()[:200]))
     if expect is not None and data != expect:
         return fail('state', 'write() is not a function of the packet alone: '
                     'it produced the frame %s, the same packet written in a '
@@ -1533,9 +1562,11 @@ IDMODES = ('attr', 'get_id', 'instance')
 PROG_IDS = (0x00, 0x7F, 0x80, 300)
 
 
-def make_program(env, names, decl, idmode, pid):
+def make_program(env, names, decl, idmode, pid, shape=None):
     table = dict(env.prog_types())
     fields = [{'f%d' % i: table[n]} for i, n in enumerate(names)]
+    if shape is not None:
+        fields = shaped(fields, *shape)
     ns = {'packet_name': 'program'}
     if decl == 'attr':
         ns['definition'] = fields
@@ -1571,6 +1602,202 @@ def run_program(ctx, env, names, decl, idmode, pid, full, only_label=None):
         raise ToolError('C05 replay: no instance labelled %r for %s'
                         % (only_label, ident))
     return n
+
+
+# -- the SHAPE of a definition -------------------------------------------------
+# packet.py: "`definition', a list of fields, each of which is a dict mapping
+# attribute names to data types": an entry may map one name, several names
+# (they are on the wire in the order the dict lists them) or none ({}: the
+# library's own way of saying "not present under this version").  The same
+# list of typed fields, cut into entries in every way, must give the same
+# frame and the same values read back.
+
+SHAPE_TYPES3 = ('Boolean', 'Short', 'VarInt', 'String', 'Position',
+                'Array(VarInt,String)')      # quick tier, length 3
+SHAPE_LABELS = ('base', 'first', 'last')
+
+
+def compositions(n):
+    """Every way to cut n items into consecutive non-empty groups (sizes)."""
+    if n == 0:
+        return [()]
+    out = []
+    for first in range(1, n + 1):
+        for rest in compositions(n - first):
+            out.append((first,) + rest)
+    return out
+
+
+def shaped(flat, groups, empties):
+    """flat: one-name entries; -> the same names cut into `groups`, with an
+    empty entry before, between and after the groups if `empties`."""
+    if sum(groups) != len(flat):
+        raise ToolError('C05: groups %r do not cover %d fields'
+                        % (groups, len(flat)))
+    out, i = ([{}] if empties else []), 0
+    for size in groups:
+        entry = {}
+        for d in flat[i:i + size]:
+            entry.update(d)
+        if len(entry) != size:
+            raise ToolError('C05: repeated field name in %r' % (flat,))
+        out.append(entry)
+        i += size
+        if empties:
+            out.append({})
+    return out
+
+
+def shape_text(groups, empties):
+    return '%s%s' % ('+'.join(str(g) for g in groups) or '0',
+                     '/{}' if empties else '')
+
+
+def clean_write(env, cls, inst, pid=None):
+    p = build_packet(cls, env.context, inst)
+    if pid is not None:
+        p.id = pid
+    buf = env.PacketBuffer()
+    p.write(buf)
+    return bytes(buf.get_writable())
+
+
+def alone_payload(env, tn, typ, v):
+    """What a packet made of this one field puts on the wire: the frame
+    minus length and id (how a TYPE is encoded is C02's business; here only
+    how a definition strings its fields together is judged)."""
+    cls = env._cache.get(('alone', tn))
+    if cls is None:
+        cls = env._cache['alone', tn] = type(
+            'OneField', (env.Packet,), {'packet_name': 'one field', 'id': 0,
+                                        'definition': [{'f0': typ}]})
+    r = ref.Reader(clean_write(env, cls, Inst('alone', [('f0', v)])))
+    rb = ref.Reader(r.take(r.varnum()))
+    rb.varnum()
+    return rb.rest()
+
+
+def shape_instances(env, cls, flat):
+    """base / first / last of the field list, and 'stagger': the k-th field
+    takes the k-th member of its alphabet (fields of one type differ)."""
+    specs = []
+    for d in flat:
+        (name, typ), = d.items()
+        specs.append((name, env.spec(typ)))
+    out = []
+    for label in SHAPE_LABELS + ('stagger',):
+        sets, checks = [], []
+        for k, (name, sp) in enumerate(specs):
+            if label == 'stagger':
+                vals = [sp.default] + list(sp.values)
+                v = vals[(k + 1) % len(vals)]
+            else:
+                v = {'base': sp.default, 'first': sp.first,
+                     'last': sp.last}[label]
+            sets.append((name, v))
+            checks.append((name, v, sp.eq))
+        out.append(Inst(label, sets, checks))
+    return out
+
+
+def run_shape(ctx, env, names, decl, groups, empties, pid, only_label=None):
+    """One field list under one shape: every instance must be written as the
+    one-name-per-entry form writes it (and as the reference says), and read
+    back with the values written."""
+    table = dict(env.prog_types())
+    flat_cls, flat = make_program(env, names, decl, 'attr', pid)
+    cls, fields = make_program(env, names, decl, 'attr', pid,
+                               shape=(groups, empties))
+    ident = 'program[%s] shape %s %s' % (','.join(names),
+                                         shape_text(groups, empties), decl)
+    case = {'kind': 'shape', 'version': env.version, 'types': list(names),
+            'decl': decl, 'groups': list(groups), 'empties': bool(empties),
+            'pid': pid, 'seed': env.seed}
+    n = 0
+    for inst in shape_instances(env, cls, flat):
+        if only_label is not None and inst.label != only_label:
+            continue
+        n += 1
+        try:
+            frame = clean_write(env, flat_cls, inst)
+        except Exception:
+            # (the one-name-per-entry form is judged by run_program)
+            frame = None
+            ctx.cls('shape: the one-name-per-entry form cannot be written')
+        if frame is not None:
+            parts = []
+            for (name, v), tn in zip(inst.sets, names):
+                try:
+                    parts.append(alone_payload(env, tn, table[tn], v))
+                except Exception:
+                    parts = None
+                    break
+            if parts is not None:
+                body = ref.varnum(pid) + b''.join(parts)
+                want = ref.varnum(len(body)) + body
+                ctx.cls('shape: frame compared with length + id + the bytes '
+                        'of each field alone')
+                if frame != want:
+                    ctx.count()
+                    ctx.outcome('layout')
+                    ctx.violation(
+                        '%s v=%s layout' % (ident, vfmt(env.version)),
+                        '%s at protocol %s, instance "%s" {%s}: the '
+                        'one-name-per-entry definition writes the frame %s; '
+                        'length, id and what each field puts on the wire '
+                        'alone, one after the other, are %s'
+                        % (ident, vfmt(env.version), inst.label,
+                           describe(inst), frame.hex()[:200],
+                           want.hex()[:200]), dict(case, label=inst.label))
+                    continue
+                frame = want
+        roundtrip(ctx, env, cls, ident, inst, case, want_id=pid,
+                  expect=frame, expect_kind=(
+                      'shape', 'the definition %s writes the frame %%s; the '
+                      'same fields declared one name per entry (and the '
+                      'reference) give %%s'
+                      % repr(fields).replace('%', '%%')))
+    if only_label is not None and n == 0:
+        raise ToolError('C05 replay: no instance labelled %r for %s'
+                        % (only_label, ident))
+    return n
+
+
+def w_shapes(ctx, task):
+    first, length, pool = task
+    mc = use_repo()
+    pos_versions, newest = program_versions(mc)
+    envs = {}
+
+    def env_for(v):
+        if v not in envs:
+            envs[v] = Env(v, ctx.seed)
+        return envs[v]
+    pools = [] if length == 0 else [[first]] + [pool] * (length - 1)
+    k = 0
+    for combo in itertools.product(*pools):
+        if TRAILING in combo[:-1]:
+            continue
+        has_pos = any(n in POSITION_PROGS for n in combo)
+        for v in (pos_versions if has_pos else [newest]):
+            for groups in compositions(length):
+                for empties in (False, True):
+                    if not empties and len(groups) == length:
+                        continue          # the plain programs
+                    for decl in DECLS:
+                        k += 1
+                        pid = PROG_IDS[k % len(PROG_IDS)]
+                        n = run_shape(ctx, env_for(v), combo, decl, groups,
+                                      empties, pid)
+                        ctx.note_distinct(n)
+                        ctx.cls('shape len=%d' % length, n)
+                        ctx.cls('shape decl=%s' % decl, n)
+                        ctx.cls('shape %s' % shape_text(groups, empties), n)
+                        if any(g > 1 for g in groups):
+                            ctx.cls('shape: several names in one entry', n)
+                        if empties:
+                            ctx.cls('shape: empty entries', n)
+        ctx.extra['shaped_programs'] = ctx.extra.get('shaped_programs', 0) + 1
 
 
 def program_versions(mc):
@@ -1933,8 +2160,14 @@ def cold_expected(version):
     out = {}
     for name in sorted(COLD_OPS):
         context = ConnectionContext(protocol_version=version)
-        frame = _cold_write(context, name)
-        out[name] = (frame, _cold_read(context, name, frame))
+        try:
+            frame = _cold_write(context, name)
+            out[name] = (frame, _cold_read(context, name, frame))
+        except Exception as e:
+            # the tree under test cannot write / read back this packet even
+            # alone: that is for the sequential sections to report
+            return {'<failed>': '%s alone: %s: %s'
+                    % (COLD_OPS[name][2], type(e).__name__, e)}
     return out
 
 
@@ -1998,6 +2231,10 @@ def run_cold(ctx, ex):
     execs = 0
     for v in (COLD_VERSIONS if ctx.thorough else COLD_VERSIONS[-1:]):
         expected = explore.in_child(cold_expected, v)
+        if '<failed>' in expected:
+            ctx.extra['concurrent_first_use_skipped'] = \
+                'protocol %d: %s' % (v, expected['<failed>'])
+            continue
         expected = dict((k, [e[0], list(e[1])]) for k, e in expected.items())
         for a, ka, b, kb in COLD_PAIRS:
             res = ex.explore(ctx, cold_factory,
@@ -2059,6 +2296,12 @@ def run(ctx):
         run_cold(ctx, ex)           # first: the parent is still cold too
         check_session_orders(ctx)
         _run(ctx)
+        if ctx.extra.get('concurrent_first_use_skipped') and \
+                not ctx.violations:
+            raise ToolError('C05: a packet could not be coded alone in a '
+                            'cold process (%s) but the sequential sections '
+                            'report nothing'
+                            % ctx.extra['concurrent_first_use_skipped'])
         if not ctx.violations:
             run_races(ctx, ex)
     finally:
@@ -2079,6 +2322,18 @@ def _run(ctx):
         tasks += [(n, length) for n in names]
     random.Random(ctx.seed + 1).shuffle(tasks)
     ctx.pmap(w_programs, tasks)
+    # the same field lists under every SHAPE of the definition
+    tasks = [(None, 0, names)]
+    for length in (1, 2, 3):
+        pool = names if length < 3 or ctx.thorough else \
+            [n for n in names if n in SHAPE_TYPES3]
+        if len(pool) < min(len(names), 4):
+            raise ToolError('C05: shape type alphabet %r' % (pool,))
+        tasks += [(n, length, pool) for n in pool]
+    random.Random(ctx.seed + 2).shuffle(tasks)
+    ctx.pmap(w_shapes, tasks)
+    ctx.extra['shape_type_alphabet_length_3'] = \
+        names if ctx.thorough else [n for n in names if n in SHAPE_TYPES3]
     ctx.extra['versions'] = len(versions)
     ctx.extra['version_list'] = [vfmt(v) for v in versions]
     ctx.extra['program_max_length'] = maxlen
@@ -2104,7 +2359,13 @@ def _run(ctx):
             'combat:EntityDeadEvent', 'face:entity', 'face:no entity',
             'plugin:unsuccessful', 'plugin:successful',
             'join:is_hardcore in game_mode', 'kind:hand-written',
-            'kind:definition', 'program len=2', 'history:sequences',
+            'kind:definition', 'program len=2', 'shape len=3',
+            'shape: several names in one entry', 'shape: empty entries',
+            'shape 3', 'shape 1+2', 'shape 2+1/{}', 'shape 0/{}',
+            'shape decl=attr', 'shape decl=staticmethod',
+            'shape: frame compared with length + id + the bytes of each '
+            'field alone',
+            'history:sequences',
             'history:poisoned write raised',
             'program ending in TrailingByteArray',
             'clientbound/play/DeathCombatEventPacket',
@@ -2141,6 +2402,11 @@ def replay(ctx, case):
         run_program(ctx, env, tuple(case['types']), case['decl'],
                     case['idmode'], case['pid'], case['full'],
                     only_label=case['label'])
+        return
+    if case['kind'] == 'shape':
+        run_shape(ctx, env, tuple(case['types']), case['decl'],
+                  tuple(case['groups']), case['empties'], case['pid'],
+                  only_label=case['label'])
         return
     if case['kind'] == 'history':
         entries = []
